@@ -1,6 +1,5 @@
 """C14 - builders reproduce exactly the appended values; snapshots are immutable (tier L, histories)."""
 import json
-import os
 
 from hypothesis import strategies as st
 
@@ -960,13 +959,25 @@ def regions(case):
     return out
 
 
+def _has_empty_record(case):
+    """a record or tuple without fields is begun somewhere in the history (syntactic: also after a refused command, where the
+    model no longer follows the builder)"""
+    steps = [c for c in case["steps"] if c[0] != "snapshot"]
+    for i, c in enumerate(steps):
+        if c[0] == "begintuple" and c[1] == 0:
+            return True
+        if c[0] == "beginrecord" and i + 1 < len(steps) and steps[i + 1][0] == "endrecord":
+            return True
+    return "region:empty_record" in regions(case)
+
+
 def pre_exclude(case):
     """histories that die in a finding recorded by another property (counted as excluded_by_finding)"""
     if case.get("kind") != "ab" or not case["arrays"]:
         return None
     used = set(c[1] for c in case["steps"] if c[0] in ("append", "extend"))
-    if any('"UnionArray' in canon(case["arrays"][k]) for k in used) and "region:empty_record" in regions(case):
-        # a record without fields ({}) beside a by-reference array of union type: the snapshot's simplify_uniontype merges
+    if any('"UnionArray' in canon(case["arrays"][k]) for k in used) and _has_empty_record(case):
+        # a record/tuple without fields ({} or ()) beside a by-reference array of union type: the snapshot's simplify_uniontype merges
         # the zero-field RecordArray, which loses its length (known finding zero_field_records of C02) -> heap overflow
         return "zero_field_records"
     return None
